@@ -132,10 +132,11 @@ def _is_empty(v: Any) -> bool:
     return v is None or (isinstance(v, (list, tuple, dict, str, bytes)) and len(v) == 0)
 
 
-def diff(a: Any, b: Any, path: Path = (), ctx: Tuple[str, str] = ("<root>", "")) -> List[Diff]:
-    """Differences of b (what came back) against a (what was written). Identity oracle: empty list."""
+def diff(a: Any, b: Any, path: Path = (), ctx: Tuple[str, str] = ("<root>", ""), ignore: Any = None) -> List[Diff]:
+    """Differences of b (what came back) against a (what was written). Identity oracle: empty list.
+    ignore(element, field name) -> True: that field of that element is not compared."""
     out: List[Diff] = []
-    _diff(a, b, path, ctx, out)
+    _diff(a, b, path, ctx, out, ignore)
     return out
 
 
@@ -143,7 +144,7 @@ def _leafmode(a: Any, b: Any) -> str:
     return "dropped" if (_is_empty(b) and not _is_empty(a)) else "altered"
 
 
-def _diff(a: Any, b: Any, path: Path, ctx: Tuple[str, str], out: List[Diff]) -> None:
+def _diff(a: Any, b: Any, path: Path, ctx: Tuple[str, str], out: List[Diff], ignore: Any = None) -> None:
     if a is b:
         return
     if is_dc(a) or is_dc(b):
@@ -152,10 +153,10 @@ def _diff(a: Any, b: Any, path: Path, ctx: Tuple[str, str], out: List[Diff]) -> 
             return
         link = is_link(a)
         for f in dataclasses.fields(a):
-            if not f.compare:
+            if not f.compare or (ignore is not None and ignore(a, f.name)):
                 continue
             sub = (ctx[0], f"{ctx[1]}.{f.name}") if link else (cname(a), f.name)
-            _diff(getattr(a, f.name), getattr(b, f.name, None), path + (f.name,), sub, out)
+            _diff(getattr(a, f.name), getattr(b, f.name, None), path + (f.name,), sub, out, ignore)
         return
     if isinstance(a, (list, tuple)) and isinstance(b, (list, tuple)):
         if len(a) != len(b):
@@ -163,14 +164,14 @@ def _diff(a: Any, b: Any, path: Path, ctx: Tuple[str, str], out: List[Diff]) -> 
                             f"{len(a)} item(s) " + _short(a), f"{len(b)} item(s) " + _short(b)))
             return
         for i, (x, y) in enumerate(zip(a, b)):
-            _diff(x, y, path + (i,), ctx, out)
+            _diff(x, y, path + (i,), ctx, out, ignore)
         return
     if isinstance(a, dict) and isinstance(b, dict):
         for k in a:
             if k not in b:
                 out.append(Diff(ctx[0], ctx[1], "dropped", path + (k,), _short(a[k]), "<missing>"))
             else:
-                _diff(a[k], b[k], path + (k,), ctx, out)
+                _diff(a[k], b[k], path + (k,), ctx, out, ignore)
         for k in b:
             if k not in a:
                 out.append(Diff(ctx[0], ctx[1], "altered", path + (k,), "<missing>", _short(b[k])))
